@@ -26,10 +26,12 @@ def run(c):
     else:
         c.mc("LocalDelivery", "LocalDeliveryMC.%s.cfg" % c.tier, workers=4, timeout=600)
         r = c.mc("RouterConfig", "RouterConfigMC.quick.cfg", workers=4, timeout=600)
-        for (mod, cfg, inv) in (("LocalDelivery", "LocalDeliveryMC.and.cfg", "DeliveredToAllowedPort"),
-                                ("LocalDelivery", "LocalDeliveryMC.allor.cfg", "ServiceToRegisteredInstance"),
-                                ("RouterConfig", "RouterConfigMC.noprop.cfg", "RangeInForce"),
-                                ("RouterConfig", "RouterConfigMC.provonly.cfg", "RangeInForce")):
+        variants = [("LocalDelivery", "LocalDeliveryMC.and.cfg", "DeliveredToAllowedPort"),
+                    ("RouterConfig", "RouterConfigMC.noprop.cfg", "RangeInForce")]
+        if c.thorough:
+            variants += [("LocalDelivery", "LocalDeliveryMC.allor.cfg", "ServiceToRegisteredInstance"),
+                         ("RouterConfig", "RouterConfigMC.provonly.cfg", "RangeInForce")]
+        for (mod, cfg, inv) in variants:
             b = c.tlc(mod, cfg, workers=2, timeout=600)
             if inv not in b.inv_violated:
                 raise vlib.Infra("model variant %s does not violate %s\n%s" % (cfg, inv, b.out[-2000:]))
